@@ -617,6 +617,81 @@ theorem command_line_generic (cfg : Cfg) (hfix : cfg.fx.append = true) (s0 : S) 
       · cases hp
       · exact hnc p hp
 
+/-! ### argument-less handlers -/
+
+/-- what the body of an argument-less handler may do: state checks, session calls, BYE — it reads
+    nothing and answers nothing -/
+def BodyPure (body : S → Option Err × S) : Prop :=
+  ∀ s, (body s).2.inp = s.inp ∧ (body s).2.pos = s.pos ∧ (body s).2.roles = s.roles ∧
+    (body s).2.lit = s.lit ∧ (body s).2.crlf = s.crlf ∧
+    ∃ new, (body s).2.evs = new ++ s.evs ∧ new.filter isTagged = [] ∧ (∀ p, Event.cont p ∉ new) ∧
+      (∀ e ∈ new, e ≠ Event.opaque)
+
+@[simp] theorem fail_roles (s : S) (e : Err) : (s.fail e).roles = s.roles := by unfold S.fail; split <;> rfl
+@[simp] theorem fail_lit (s : S) (e : Err) : (s.fail e).lit = s.lit := by unfold S.fail; split <;> rfl
+@[simp] theorem fail_crlf (s : S) (e : Err) : (s.fail e).crlf = s.crlf := by unfold S.fail; split <;> rfl
+
+theorem noArgs_shape (name : Bytes) (body : S → Option Err × S) (hb : BodyPure body) (rest t' : Bytes) (s2 : S)
+    (hi : s2.inp = t' ++ 13 :: 10 :: rest) (ht : noEol t') (hl : s2.lit = none)
+    (hsp : t' ≠ [] → t'.getLast? ≠ some 32) :
+    ∃ e s3, runHandler name (.run fun s => noArgs s body) s2 = (false, e, s3) ∧ Shape rest t' s2 s3 := by
+  unfold runHandler
+  dsimp only
+  have hl' : (s2.emit (.dispatch name)).lit = none := hl
+  have hi' : (s2.emit (.dispatch name)).inp = t' ++ 13 :: 10 :: rest := hi
+  generalize hsd : s2.emit (.dispatch name) = sd at hl' hi'
+  have hsd_evs : sd.evs = Event.dispatch name :: s2.evs := by rw [← hsd]; rfl
+  have hsd_pos : sd.pos = s2.pos := by rw [← hsd]; rfl
+  have hsd_roles : sd.roles = s2.roles := by rw [← hsd]; rfl
+  cases t' with
+  | nil =>
+    simp only [List.nil_append] at hi'
+    obtain ⟨sx, hcr, hadv, hcrlf, hinp⟩ := crlfP_at_eol sd rest hl' hi'
+    have hexp : sd.expectCRLF = (true, sx) := by
+      unfold S.expectCRLF; rw [hcr]; simp [S.expect]
+    obtain ⟨bi, bp, br, bl, bc, new, be, bt, bn, bo⟩ := hb sx
+    refine ⟨(body sx).1, (body sx).2, ?_, ?_⟩
+    · unfold noArgs; rw [hexp]
+    · refine ⟨[], [], true, new ++ [Event.dispatch name], by simp, fun _ => rfl, ?_, ?_, ?_, ?_, ?_, ?_, by simp, ?_, ?_, ?_⟩
+      · simp [bi, hinp]
+      · simp [bp, hadv.pos, hsd_pos]
+      · simp [br, hadv.roles, hsd_roles]
+      · rw [bl, hadv.lit, hl']
+      · rw [bc, hcrlf]
+      · rw [be, hadv.evs, hsd_evs]; simp
+      · simp [List.filter_append, bt, isTagged]
+      · intro p hp
+        simp only [List.mem_append, List.mem_singleton] at hp
+        rcases hp with hp | hp
+        · exact bn p hp
+        · cases hp
+      · intro e he
+        simp only [List.mem_append, List.mem_singleton] at he
+        rcases he with he | he
+        · exact bo e he
+        · rw [he]; simp
+  | cons b t =>
+    obtain ⟨hf, hc, c2, t'', htc, hadv⟩ := crlfP_mid sd b t rest hl' hi' ht (hsp (by simp))
+    have hexp : sd.expectCRLF = (false, (sd.crlfP).2.expect false) := by
+      unfold S.expectCRLF
+      have : sd.crlfP = (false, sd.crlfP.2) := Prod.ext hf rfl
+      rw [this]
+    refine ⟨((sd.crlfP).2.expect false).err, (sd.crlfP).2.expect false, ?_, ?_⟩
+    · unfold noArgs; rw [hexp]
+    · have hi3 : (sd.crlfP).2.inp = t'' ++ 13 :: 10 :: rest := by
+        have := hadv.inp
+        rw [hi', htc, List.append_assoc] at this
+        exact (List.append_cancel_left this).symm
+      refine ⟨c2, t'', false, [Event.dispatch name], htc, by simp, ?_, ?_, ?_, ?_, ?_, ?_, by simp, by simp [isTagged], ?_, ?_⟩
+      · simp [S.expect, hi3]
+      · simp [S.expect, hadv.pos, hsd_pos]
+      · simp [S.expect, hadv.roles, hsd_roles]
+      · simp [S.expect, hadv.lit, hl']
+      · simp [S.expect, hc]
+      · simp [S.expect, hadv.evs, hsd_evs]
+      · intro p hp; simp at hp
+      · intro e he; simp at he; rw [he]; simp
+
 /-! ### against the RFC-side framing -/
 
 theorem atomChar_agree : ∀ c, c < 127 → 32 ≤ c → isAtomChar c = FramingSpec.isAtomChar c := by decide
